@@ -6,6 +6,7 @@ cd /verif
 if [ -n "$(git -C /repo status --porcelain --untracked-files=no)" ]; then echo "/repo has uncommitted changes: refusing"; exit 2; fi
 SEEDS=${1:-"1 2 3 4"}; shift
 IDS=${@:-$(ls seeded | grep '^C0\|^C1[0-3]\|^C19')}
+PIDS=""
 for id in $IDS; do
   pid=${id%%-*}
   git -C /repo apply --check /verif/seeded/$id/patch.diff 2>/dev/null || { echo "$id patch-does-not-apply"; continue; }
@@ -18,5 +19,8 @@ for id in $IDS; do
   git -C /repo checkout -- .
   python3 translator/extract.py > /dev/null 2>&1
   echo "$id $row"
+  PIDS="$PIDS $pid"
 done
+# the runs above rewrote evidence/<pid>.json from a changed tree: write it again from the clean tree
+for pid in $(echo $PIDS | tr ' ' '\n' | sort -u); do ./check.py $pid --tier quick > /tmp/matrix_clean_$pid.log 2>&1 || echo "CLEAN-TREE ALARM $pid (see /tmp/matrix_clean_$pid.log)"; done
 git -C /repo status --porcelain --untracked-files=no
